@@ -645,6 +645,46 @@ def sec_wrappers(ck):
             same_space = isinstance(w.observation_space, Box) and bool(jnp.array_equal(w.observation_space.low, env.observation_space.low)) and bool(jnp.array_equal(w.observation_space.high, env.observation_space.high))
             ck.fact(f"wrap.{wname}.advertises_inner_space", same_space, "observation_space of the wrapper has the inner Box's bounds")
             ck.prove(f"wrap.{wname}.obs_passthrough", [], eq_arr(o1[t1.out_names[0]], o2[t2.out_names[0]]), replay=lambda res: (True, {"note": "terms differ"}))
+    # ... and over stacks whose spaces differ from the base environment's (the declared spaces are the directly wrapped stack's, not the innermost env's)
+    with ck.section("wrap.passthrough_over_transforming_stacks"):
+        mc = dyadic["mountain_car_asymmetric"]
+        inners = {"RescaleObservation@mountain_car": W.RescaleObservation(mc), "FlattenObservation∘RescaleObservation@mountain_car": W.FlattenObservation(W.RescaleObservation(mc)),
+                  "RescaleAction@pendulum": W.RescaleAction(Pendulum()), "RescaleAction[0,4]@continuous_mountain_car": W.RescaleAction(ContinuousMountainCar(), min=jnp.array(0.0), max=jnp.array(4.0))}
+        for iname, inner in inners.items():
+            for wname, w in (("Identity", W.Identity(inner)), ("TimeLimit", W.TimeLimit(inner, 10)), ("ClipReward", W.ClipReward(inner))):
+                passthrough_spaces(ck, f"{wname}∘{iname}", w)
+
+
+def passthrough_spaces(ck, label, w, mode="real"):
+    """a wrapper that transforms neither observations nor actions, over a stack that DOES: the spaces it declares must be those of the environment
+    it directly wraps -- every member of the wrapped stack's observation space is a member of the declared observation space (its observation is
+    the wrapped stack's, `obs_passthrough`), and every member of the declared action space is accepted by the wrapped stack"""
+    inner = w.env
+
+    def fo(w_, ob):
+        return space_out(w_, ob)
+
+    def fa(w_, a):
+        sp = w_.env.action_space
+        return {"obs": a, "low": sp.low, "high": sp.high, "member": sp.contains(a)}
+    for what, f, src, dst in (("obs_of_wrapped_stack_in_declared_space", fo, inner.observation_space, w.observation_space),
+                              ("declared_action_accepted_by_wrapped_stack", fa, w.action_space, inner.action_space)):
+        if not (isinstance(src, Box) and isinstance(dst, Box)) or tuple(src.shape) != tuple(dst.shape):
+            ck.fact(f"wrap.{label}.{what}", isinstance(src, Box) == isinstance(dst, Box) and getattr(src, "shape", None) == getattr(dst, "shape", None),
+                    f"spaces of different kinds/shapes: {src} vs {dst}")
+            continue
+        tr = trace(f, w, jnp.zeros(src.shape), argnames=["w", "x"], label=f"{label}: {what}")
+        it = Interp(mode=mode)
+        leaves = [l for l in jax.tree_util.tree_leaves(w) if eqx.is_array(l)]
+        given = {n: it.lift(np.asarray(l), av.dtype) for n, av, l in zip(tr.in_names, tr.in_avals, leaves) if n != "x"}
+        S = tr.symbols(it, given=given)
+        out = tr.run(it, S)
+        x = S["x"]
+        pre = member_terms(it.o, x, it.lift(np.asarray(src.low)), it.lift(np.asarray(src.high)))
+        if mode == "real":
+            pre = pre + inf_axioms() + [z3.And(t > -INF, t < INF) for t in x.reshape(-1)]
+        goal = conj(member_terms(it.o, out["obs"], out["low"], out["high"]) + [out["member"][()]])
+        ck.prove(f"wrap.{label}.{what}", pre, goal, replay=replay_member(tr, S, it))
 
 
 # ------------------------------------------------------------------------------------------------ no Python-side state across constructions
